@@ -32,6 +32,7 @@ Definition size (e : env) : nat := length (curc e).
 (* labels: the writer's operations and the results of Read are visible; the rest is internal *)
 Inductive label :=
 | LAppend (bs : bytes) | LRemove | LCreate      (* writer *)
+| LSibling                                      (* somebody creates / writes / removes / renames ANOTHER entry of the directory *)
 | LWatch                                        (* watcher goroutine forwards one event *)
 | LTau | LStat                                  (* reader, internal (LStat: the poller's os.Stat) *)
 | LData (bs : bytes) | LEof.                    (* Read returned (n > 0, nil) / (0, io.EOF) *)
@@ -47,7 +48,8 @@ Definition fd_current (e : env) (f : fd) : bool :=   (* os.SameFile(f.Stat(), os
 Definition open_cur (e : env) : fd := if present e then Some (ino e, 0) else None.   (* os.Open(path) *)
 
 (* ------------------------------------------------------------------ notify reader *)
-Inductive event := EvWrite | EvRemove | EvCreate.
+Inductive event := EvWrite | EvRemove | EvCreate
+  | EvOther.   (* an event of another entry of the watched directory: path.Base(event.Name) differs *)
 Definition ev_of (l : label) : list event :=
   match l with LAppend _ => [EvWrite] | LRemove => [EvRemove] | LCreate => [EvCreate] | _ => [] end.
 (* program points of Read: about to read the descriptor / in the select / closed (EOF returned) *)
@@ -74,7 +76,7 @@ Inductive nstep : nstate -> label -> nstate -> Prop :=
 (* watcher goroutine: event := <-watcher.Events; writeSignalNonBlock *)
 | n_watch s ev q : queue s = ev :: q ->
     nstep s LWatch (mkn (nenv s) (nfd s) (npcs s)
-                        (match ev with EvRemove => sigW s | _ => true end)
+                        (match ev with EvWrite | EvCreate => true | _ => sigW s end)
                         (match ev with EvRemove => true | _ => sigD s end) q (ndel s))
 (* n, err := s.f.Read(buf); n > 0: return *)
 | n_read_data s i off bs rest : npcs s = NRead -> nfd s = Some (i, off) -> bs <> [] ->
@@ -97,7 +99,10 @@ Inductive nstep : nstate -> label -> nstate -> Prop :=
 (* case <-s.eventDelete, no ReOpen: Close; return 0, io.EOF.  (Close also drops the descriptor; every later
    Read returns EOF because of [closed], so the descriptor is kept here as a ghost.) *)
 | n_sel_delete_end s : npcs s = NSelect -> sigD s = true -> reopen = false ->
-    nstep s LEof (mkn (nenv s) (nfd s) NEnded (sigW s) false (queue s) (ndel s)).
+    nstep s LEof (mkn (nenv s) (nfd s) NEnded (sigW s) false (queue s) (ndel s))
+(* another entry of the directory changes: the kernel queues an event that the goroutine filters out *)
+| n_sibling s :
+    nstep s LSibling (mkn (nenv s) (nfd s) (npcs s) (sigW s) (sigD s) (queue s ++ [EvOther]) (ndel s)).
 End Notify.
 
 (* ------------------------------------------------------------------ polling reader *)
@@ -140,7 +145,9 @@ Inductive pstep : pstate -> label -> pstate -> Prop :=
 | p_stat_present s a : ppcs s = PStat -> reopen = false -> present (penv s) = true ->
     pstep s LTau (mkp (penv s) (pfd s) PRead (rb s) (pdel s) a)
 | p_stat_gone s : ppcs s = PStat -> reopen = false -> present (penv s) = false ->
-    pstep s LEof (mkp (penv s) (pfd s) PEnded (rb s) (pdel s) (patt s)).
+    pstep s LEof (mkp (penv s) (pfd s) PEnded (rb s) (pdel s) (patt s))
+(* another entry of the directory changes: nothing the poller looks at *)
+| p_sibling s : pstep s LSibling s.
 End Poll.
 
 (* ------------------------------------------------------------------ initial states *)
@@ -203,7 +210,7 @@ Definition spec_step (reopen : bool) (s : spec) (l : label) : option spec :=
                 then Some (mks (sE s) (sDl s ++ bs) (sPresent s) (sRemoved s) (sEnded s)) else None
   | LEof => if negb (sEnded s) && negb reopen && sRemoved s
             then Some (mks (sE s) (sDl s) (sPresent s) (sRemoved s) true) else None
-  | LWatch | LTau | LStat => Some s
+  | LWatch | LTau | LStat | LSibling => Some s   (* siblings are invisible to the specification *)
   end.
 Fixpoint spec_run (reopen : bool) (s : spec) (tr : list label) : option spec :=
   match tr with
@@ -222,12 +229,14 @@ Record cin := mkcin { i_poll : bool; i_reopen : bool; i_tail : bool; i_c0 : opti
 Definition obs := (bytes * N * list label)%type.
 
 Definition is_env (l : label) : bool :=
-  match l with LAppend _ | LRemove | LCreate => true | _ => false end.
+  match l with LAppend _ | LRemove | LCreate | LSibling => true | _ => false end.
+Definition is_sibling (l : label) : bool := match l with LSibling => true | _ => false end.
 Definition is_remove (l : label) : bool := match l with LRemove => true | _ => false end.
 Definition label_eqb (a b : label) : bool :=
   match a, b with
   | LAppend x, LAppend y => bytes_eqb x y | LData x, LData y => bytes_eqb x y
-  | LRemove, LRemove | LCreate, LCreate | LWatch, LWatch | LTau, LTau | LStat, LStat | LEof, LEof => true
+  | LRemove, LRemove | LCreate, LCreate | LWatch, LWatch | LTau, LTau | LStat, LStat | LEof, LEof
+  | LSibling, LSibling => true
   | _, _ => false
   end.
 Definition data_of (tr : list label) : bytes :=
